@@ -32,7 +32,7 @@ func build(sc *engine.Scenario, res *engine.Result) *machine.Machine {
 		return nil
 	}
 	envAudio, envVideo := sc.P("env.audio", 0) != 0 && !sc.Audio, sc.P("env.video", 0) != 0 && !sc.Video
-	m, pi := machine.New(img, sc.Cart.Missing, machine.Options{Audio: sc.Audio || envAudio, Video: sc.Video || envVideo, Serial: sc.Serial, ChanCap: sc.ChanCap, DebugLCD: sc.P("env.debuglcd", 0) != 0, DebugCPU: sc.P("debugcpu", 0) != 0})
+	m, pi := machine.New(img, sc.Cart.Missing, machine.Options{Audio: sc.Audio || envAudio, Video: sc.Video || envVideo, Serial: sc.Serial, ChanCap: sc.ChanCap, DebugLCD: sc.P("env.debuglcd", 0) != 0, DebugCPU: sc.P("debugcpu", 0) != 0 || sc.P("env.debugcpu", 0) != 0})
 	if pi != nil {
 		res.Harness = fmt.Sprintf("construction panicked for a well-formed cartridge: %s (%s)", pi.Value, pi.Site)
 		return nil
@@ -90,6 +90,15 @@ func chooseEnv(r *engine.Rand, sc *engine.Scenario) {
 	if r.Chance(1, 3) {
 		sc.SetP("env.video", 1)
 	}
+	chooseTrace(r, sc)
+}
+
+// chooseTrace switches the instruction trace on (Config.DebugCPU) in one scenario in twelve, where the
+// CPU is only parked: the trace goes to standard output (discarded by the runner) and changes nothing else.
+func chooseTrace(r *engine.Rand, sc *engine.Scenario) {
+	if r.Chance(1, 12) && sc.Cycles < 2_000_000 {
+		sc.SetP("env.debugcpu", 1)
+	}
 }
 
 // chooseEnvConfig picks the configuration flags only (checks whose histories own all of high RAM).
@@ -97,6 +106,7 @@ func chooseEnvConfig(r *engine.Rand, sc *engine.Scenario) {
 	if r.Chance(1, 4) {
 		sc.SetP("env.debuglcd", 1)
 	}
+	chooseTrace(r, sc)
 }
 
 // park parks the CPU as the scenario's environment says.
@@ -111,6 +121,9 @@ func park(sc *engine.Scenario, m *machine.Machine, res *engine.Result) {
 	}
 	if sc.P("env.debuglcd", 0) != 0 {
 		res.Probe("env_debug_lcd")
+	}
+	if sc.P("env.debugcpu", 0) != 0 {
+		res.Probe("env_instruction_trace")
 	}
 }
 
